@@ -161,8 +161,30 @@ static struct iterator IT_make1(struct hmm* m) { struct iterator it = xv_it_blan
 static struct iterator IT_make2(struct hmm* m, size_t b) { struct iterator it = xv_it_blank(); it_ctor2(&it, m, b); return it; }
 static struct iterator IT_make3(struct hmm* m, size_t b, struct find_info i) { struct iterator it = xv_it_blank(); it_ctor3(&it, m, b, i); return it; }
 #define IT_make(...) XV_PICK3(__VA_ARGS__, IT_make3, IT_make2, IT_make1)(__VA_ARGS__)
-#define HMM_FIND(self, h, k, b, i, bo) hmm_find((self), (h), (k), (b), &(i), (bo))
-#define IT_map_find(m, h, k, b, i, bo) hmm_find(&(m), (h), (k), (b), &(i), (bo))
+/* callers of the internal find: the real text (default) or its executable contract (-DXV_FIND_CONTRACT), which run h_find proves
+ * equivalent to the real text on every well-formed state and every start an iterator can hand in */
+static _Bool hmm_find_contract(struct hmm* self, hash_t hash, kkey_t key, size_t bucket, struct find_info* info);
+#ifdef XV_FIND_CONTRACT
+#define XV_FIND_IMPL(self, h, k, b, ip, bo) hmm_find_contract((self), (h), (k), (b), (ip))
+#else
+#define XV_FIND_IMPL(self, h, k, b, ip, bo) hmm_find((self), (h), (k), (b), (ip), (bo))
+#endif
+#ifdef XV_INT
+_Bool env_on;
+#endif
+#if defined(XV_INT) && !defined(XV_INT_FIND)
+#undef XV_SPURIOUS
+#define XV_SPURIOUS() (env_on && nondet_bool())      /* weak CAS fails spuriously only where interference is enabled */
+/* INT runs on the callers: the interference is placed between the caller's own steps; find itself runs without interference there
+ * (its interference behaviour is the subject of the find_int run) */
+static _Bool xv_find_noenv(struct hmm* self, hash_t h, kkey_t k, size_t b, struct find_info* ip, int bo) {
+  _Bool e = env_on; env_on = 0; _Bool r = XV_FIND_IMPL(self, h, k, b, ip, bo); env_on = e; return r; }
+#define HMM_FIND(self, h, k, b, i, bo) xv_find_noenv((self), (h), (k), (b), &(i), (bo))
+#define IT_map_find(m, h, k, b, i, bo) xv_find_noenv(&(m), (h), (k), (b), &(i), (bo))
+#else
+#define HMM_FIND(self, h, k, b, i, bo) XV_FIND_IMPL((self), (h), (k), (b), &(i), (bo))
+#define IT_map_find(m, h, k, b, i, bo) XV_FIND_IMPL(&(m), (h), (k), (b), &(i), (bo))
+#endif
 #define IT_move_to_next_bucket(pos) it_move_to_next_bucket(&(pos))
 #define XV_GOTO_RETRY goto retry
 
@@ -193,38 +215,47 @@ static mptr succ_of(unsigned i, unsigned b) { return (i + 1 < hi(b)) ? W(i + 1) 
 static mptr pre_next(unsigned i, unsigned b) { return succ_of(i, b) | (mptr)in_mark[i]; }
 static _Bool GE(unsigned i, hash_t h, kkey_t k) { return DATA_greater_or_equal(pool[i].data, h, k); }
 
-static void build(void) {
+hash_t in_hgarbage[NP]; mptr in_ngarbage; _Bool in_xret[2];
+static void choose(void) {
   unsigned total = 0;
   for (unsigned b = 0; b < NB; b++) { in_n[b] = nondet_uint(); XV_ASSUME(in_n[b] <= L); total += in_n[b]; }
   XV_ASSUME(total <= L);
   for (unsigned i = 0; i < NP; i++) {
-    in_key[i] = nondet_u32(); in_val[i] = (val_t)nondet_uptr(); in_mark[i] = nondet_bool(); in_hash[i] = HASH_FN(in_key[i]);
+    in_key[i] = nondet_u32(); in_val[i] = (val_t)nondet_uptr(); in_mark[i] = nondet_bool(); in_hash[i] = HASH_FN(in_key[i]); in_hgarbage[i] = nondet_size();
+  }
+  in_ngarbage = nondet_uptr();
+  for (unsigned x = 0; x < 2; x++) {
+    in_mark[IX + x] = 1; in_xnext[x] = nondet_uptr(); in_xret[x] = nondet_bool();
+    XV_ASSUME(MP_mark(in_xnext[x]) == 1 && (MP_get(in_xnext[x]) == 0 || (is_node(in_xnext[x]) && idx_of(in_xnext[x]) < total)));
+  }
+}
+/* (re-)install the chosen state: everything is a function of the in_* values */
+static void install(void) {
+  for (unsigned i = 0; i < NP; i++) {
     pool[i].data.value.first = in_key[i]; pool[i].data.value.second = in_val[i];
 #if XV_MEMO
     pool[i].data.hash = in_hash[i];
 #else
-    pool[i].data.hash = nondet_size();
+    pool[i].data.hash = in_hgarbage[i];
 #endif
-    pool[i].next = nondet_uptr();
+    pool[i].next = in_ngarbage;
     g_retired[i] = 0;
   }
   for (unsigned b = 0; b < NB; b++) {
     M.buckets[b] = in_n[b] ? W(lo(b)) : 0;
+    for (unsigned i = 0; i < L; i++) if (i >= lo(b) && i < hi(b)) pool[i].next = pre_next(i, b);
+  }
+  for (unsigned x = 0; x < 2; x++) { pool[IX + x].next = in_xnext[x]; g_retired[IX + x] = in_xret[x]; }
+  g_alloc = 0; g_freed = 0; g_published = 0; g_alloc_count = 0; g_factory_calls = 0;
+  mon_cas_count = 0; mon_cas_ok_count = 0; xv_clock = 0;
+}
+static void build(void) {
+  choose(); install();
+  for (unsigned b = 0; b < NB; b++)
     for (unsigned i = 0; i < L; i++) if (i >= lo(b) && i < hi(b)) {
-      pool[i].next = pre_next(i, b);
       XV_ASSUME(utils_modulo(in_hash[i], NB) == b);
       for (unsigned j = 0; j < L; j++) if (j > i && j < hi(b)) XV_ASSUME(!GE(i, in_hash[j], in_key[j]));
     }
-  }
-  /* unlinked, marked nodes */
-  for (unsigned x = 0; x < 2; x++) {
-    in_mark[IX + x] = 1; in_xnext[x] = nondet_uptr();
-    XV_ASSUME(MP_mark(in_xnext[x]) == 1 && (MP_get(in_xnext[x]) == 0 || (is_node(in_xnext[x]) && idx_of(in_xnext[x]) < total)));
-    pool[IX + x].next = in_xnext[x];
-    g_retired[IX + x] = nondet_bool();
-  }
-  g_alloc = 0; g_freed = 0; g_published = 0; g_alloc_count = 0; g_factory_calls = 0;
-  mon_cas_count = 0; mon_cas_ok_count = 0; xv_clock = 0;
 }
 
 /* ---- expected post-state: which linked nodes were unlinked, where a node was inserted, final marks ---- */
@@ -280,6 +311,57 @@ static _Bool post_retired_ok(void) {
 }
 static void snapshot(void) { pre_retired_x = g_retired[IX]; pre_retired_y = g_retired[IY]; }
 
+/* ---- executable contract of the internal find (sequential) ------------------------------------------------------------------
+ * requires: the lists have the built shape (nothing unlinked yet; marks arbitrary), (prev, save) is a bucket head / a linked node
+ *           of this bucket / the unlinked node IY.
+ * ensures:  with from = behind save if save is linked and unmarked, else the head of the bucket: every marked node in [from, q)
+ *           is unlinked and retired once, q = first unmarked node >= (hash, key) in the container's order (or none);
+ *           cur = q, prev/save = the last unmarked node in [from, q) (or the start), next = q's next; returns q && key(q) == key. */
+static _Bool shape_intact(void) {
+  _Bool ok = 1;
+  for (unsigned b = 0; b < NB; b++) {
+    ok = ok && M.buckets[b] == (in_n[b] ? W(lo(b)) : 0);
+    for (unsigned i = 0; i < L; i++) if (i >= lo(b) && i < hi(b)) ok = ok && MP_get(pool[i].next) == succ_of(i, b) && g_retired[i] == 0;
+  }
+  return ok;
+}
+static _Bool hmm_find_contract(struct hmm* self, hash_t hash, kkey_t key, size_t bucket, struct find_info* info) {
+  _Bool pre = self == &M && bucket < NB && shape_intact();
+  unsigned b = (unsigned)bucket, from = lo(b);
+  if (info->save == 0) pre = pre && info->prev == &M.buckets[b];
+  else {
+    pre = pre && is_node(info->save) && MP_mark(info->save) == 0 && info->prev == &pool[idx_of(info->save)].next
+              && (idx_of(info->save) == IY || (idx_of(info->save) >= lo(b) && idx_of(info->save) < hi(b)));
+  }
+  mptr* start_cell = &M.buckets[b]; guard_t start_guard = 0;
+  if (pre && info->save != 0 && idx_of(info->save) != IY && MP_mark(pool[idx_of(info->save)].next) == 0) {
+    from = idx_of(info->save) + 1; start_cell = info->prev; start_guard = info->save;
+    pre = pre && !GE(idx_of(info->save), hash, key);          /* the start node precedes the key */
+  }
+  XV_OBL("hmm.find.requires", pre); XV_ASSUME(pre);
+  unsigned q = hi(b);
+  for (unsigned i = L; i-- > 0; ) if (i >= from && i < hi(b) && MP_mark(pool[i].next) == 0 && GE(i, hash, key)) q = i;
+  mptr nxt = q < hi(b) ? W(q) : 0; unsigned pred = L;
+  for (unsigned i = L; i-- > 0; ) if (i >= from && i < q) {
+    if (MP_mark(pool[i].next)) g_retired[i]++;
+    else { pool[i].next = nxt; nxt = W(i); if (pred == L) pred = i; }
+  }
+  *start_cell = nxt;
+  info->cur = q < hi(b) ? W(q) : 0;
+  info->next = q < hi(b) ? pool[q].next : 0;
+  if (pred < L) { info->prev = &pool[pred].next; info->save = W(pred); } else { info->prev = start_cell; info->save = start_guard; }
+  return q < hi(b) && pool[q].data.value.first == key;
+}
+struct world { struct hmm M; struct node pool[NP]; unsigned retired[NP]; };
+static void world_save(struct world* w) { w->M = M; for (unsigned i = 0; i < NP; i++) { w->pool[i] = pool[i]; w->retired[i] = g_retired[i]; } }
+static _Bool world_equal(const struct world* w) {
+  _Bool ok = 1;
+  for (unsigned b = 0; b < NB; b++) ok = ok && w->M.buckets[b] == M.buckets[b];
+  for (unsigned i = 0; i < NP; i++) ok = ok && w->retired[i] == g_retired[i] && w->pool[i].next == pool[i].next && w->pool[i].data.hash == pool[i].data.hash
+                                         && w->pool[i].data.value.first == pool[i].data.value.first && w->pool[i].data.value.second == pool[i].data.value.second;
+  return ok;
+}
+
 /* ---- order predicates: loop-free, all hashes and keys -------------------------------------------------------------------- */
 void h_order(void) {
   struct data_t a, b, c;
@@ -308,7 +390,7 @@ void h_order(void) {
     XV_OBL("hmm.order.total", (ab && ba) == (a.value.first == b.value.first));
     XV_OBL("hmm.order.total", !(ab && bc) || ac);
     if (ab && !ba && ha == hb) XV_CANARY("order.hash.collision");
-    if (ab && !ba && ha > hb && a.value.first < b.value.first) XV_CANARY("order.hash.decreasing");
+    if (ha > hb && a.value.first < b.value.first) XV_CANARY("order.hash.decreasing");
   }
 }
 
@@ -345,6 +427,7 @@ void h_find(void) {
   exp_remove_marked(from, q);
   unsigned pred = spec_pred(from, q);
 
+  struct find_info info0 = info;
   _Bool r = hmm_find(&M, h, in_k, b, &info, 0);
 
   XV_OBL("hmm.find.iff_live", r == live);
@@ -356,6 +439,11 @@ void h_find(void) {
   XV_OBL("hmm.find.frame", post_payload_ok());
   XV_OBL("hmm.find.frame", post_retired_ok());
   XV_OBL("hmm.find.frame", !g_alloc && !g_freed);
+  /* the executable contract, run on the same pre-state, produces exactly the same post-state and results */
+  { static struct world w1; world_save(&w1); install();
+    struct find_info info2 = info0; _Bool r2 = hmm_find_contract(&M, h, in_k, b, &info2);
+    XV_OBL("hmm.find.contract", r2 == r && info2.cur == info.cur && info2.prev == info.prev && info2.save == info.save && info2.next == info.next);
+    XV_OBL("hmm.find.contract", world_equal(&w1)); }
   if (r) XV_CANARY("find.found");
   if (!r && q < hi(b)) XV_CANARY("find.stopped_at_greater");
   if (!r && q == hi(b)) XV_CANARY("find.end_of_bucket");
@@ -541,10 +629,10 @@ void h_inc(void) {
   XV_OBL("hmm.iter.inc.frame", post_lists_ok());
   XV_OBL("hmm.iter.inc.frame", post_payload_ok() && post_retired_ok() && !g_alloc);
   if (fast && exp_cur != 0 && exp_bucket == b) XV_CANARY("inc.fast");
-  if (fast && exp_cur != 0 && exp_bucket == b && in_mark[in_ic + 1]) XV_CANARY("inc.fast_to_marked");
+  if (fast && in_ic + 1 < hi(b) && in_mark[in_ic + 1]) XV_CANARY("inc.fast_to_marked");
   if (!fast && in_icur == 0 && exp_cur != 0 && exp_bucket == b) XV_CANARY("inc.cur_marked_linked");
   if (in_icur == 1 && exp_cur != 0 && exp_bucket == b) XV_CANARY("inc.cur_unlinked");
-  if (in_icur == 1 && exp_cur != 0 && exp_bucket == b && in_key[in_ip] == in_key[IX]) XV_CANARY("inc.key_reinserted");
+  if (in_icur == 1 && in_ip < hi(b) && !in_mark[in_ip] && in_key[in_ip] == in_key[IX]) XV_CANARY("inc.key_reinserted");
   if (!fast && in_isave == 1 && it_from > lo(b) && exp_cur != 0 && exp_bucket == b) XV_CANARY("inc.slow_from_save");
   if (in_isave == 2) XV_CANARY("inc.save_unlinked");
   if (in_isave == 1 && in_icur == 0 && in_is + 1 < in_ic) XV_CANARY("inc.successor_of_save_changed");
@@ -565,7 +653,7 @@ void h_erase_it(void) {
     if (in_ic + 1 < hi(b)) { exp_cur = W(in_ic + 1); exp_prev = pre.info.prev; exp_save = pre.info.save; }
     else { exp_cur = first_of_later_bucket(b, &exp_bucket); exp_save = 0; }
   } else {
-    _Bool m = in_mark[in_ic]; if (in_icur == 0) in_mark[in_ic] = 1;      /* cur is marked by the time find runs */
+    _Bool m = 0; if (in_icur == 0) { m = in_mark[in_ic]; in_mark[in_ic] = 1; }      /* cur is marked by the time find runs */
     expect_slow_path(&it, b, &exp_cur, &exp_prev, &exp_save, &exp_bucket, &pre);
     if (in_icur == 0) in_mark[in_ic] = m;
   }
@@ -580,11 +668,10 @@ void h_erase_it(void) {
   XV_OBL("hmm.iter.erase.exact", no_skip(b, &r));
   if (exp_cur != 0) XV_OBL("hmm.iter.erase.exact", r.bucket == exp_bucket && r.info.save == exp_save && r.info.prev == (exp_prev ? exp_prev : &M.buckets[exp_bucket]));
   XV_OBL("hmm.iter.erase.exact", it_consistent(&r) && r.map == &M);
-  if (direct && !in_mark[in_ic]) XV_CANARY("erase_it.direct");
-  if (direct && in_mark[in_ic]) XV_CANARY("erase_it.already_marked");
+  if (direct) { if (!in_mark[in_ic]) XV_CANARY("erase_it.direct"); else XV_CANARY("erase_it.already_marked"); }
   if (!direct && in_icur == 0) XV_CANARY("erase_it.prev_changed");
   if (in_icur == 1) XV_CANARY("erase_it.cur_unlinked");
-  if (direct && exp_cur != 0 && exp_bucket == b && in_mark[in_ic + 1]) XV_CANARY("erase_it.returns_marked_successor");
+  if (direct && in_ic + 1 < hi(b) && in_mark[in_ic + 1]) XV_CANARY("erase_it.returns_marked_successor");
   if (exp_cur == 0) XV_CANARY("erase_it.to_end");
 #if NB > 1
   if (exp_cur != 0 && exp_bucket != b) XV_CANARY("erase_it.to_next_bucket");
@@ -611,3 +698,68 @@ void h_begin(void) {
   }
   XV_OBL("hmm.iter.begin.first", post_lists_ok() && post_payload_ok() && post_retired_ok() && !g_alloc);
 }
+
+/* =====================================================================================================================
+ * INT: operator++ with one step of another handle (insert a node anywhere / mark a node / unlink a marked node) placed
+ * between any two of its own atomic steps.
+ * ===================================================================================================================== */
+#if defined(XV_INT) && !defined(XV_INT_FIND)
+unsigned env_budget; _Bool env_inserted, env_did_mark, env_did_unlink; unsigned env_zb, env_zpos, env_marked, env_unlinked;
+void xv_env(void) {
+  if (!env_on || env_budget == 0 || !nondet_bool() || !shape_intact()) return;
+  env_budget--;
+  unsigned kind = nondet_uint(), j = nondet_uint(), zb = nondet_uint();
+  XV_ASSUME(kind <= 2 && zb < NB);
+  if (kind == 0) {                /* another handle inserts pool[IN] in front of linked node j of bucket zb (j == hi: at the end) */
+    XV_ASSUME(j >= lo(zb) && j <= hi(zb));
+    mptr* cell = (j == lo(zb)) ? &M.buckets[zb] : &pool[j - 1].next;
+    XV_ASSUME(MP_mark(*cell) == 0 && utils_modulo(in_hash[IN], NB) == zb);
+    for (unsigned i = 0; i < L; i++) if (i >= lo(zb) && i < hi(zb)) { if (i < j) XV_ASSUME(!GE(i, in_hash[IN], in_key[IN])); else XV_ASSUME(!GE(IN, in_hash[i], in_key[i])); }
+    pool[IN].next = *cell; *cell = W(IN); g_alloc = 1; g_published = 1;
+    env_inserted = 1; env_zb = zb; env_zpos = j;
+  } else if (kind == 1) {         /* another handle marks linked node j (first half of an erase) */
+    XV_ASSUME(j < lo(NB - 1) + in_n[NB - 1] && MP_mark(pool[j].next) == 0);
+    pool[j].next |= 1; env_did_mark = 1; env_marked = j;
+  } else {                        /* another handle unlinks the marked node j and retires it */
+    XV_ASSUME(zb < NB && j >= lo(zb) && j < hi(zb) && MP_mark(pool[j].next) == 1);
+    mptr* cell = (j == lo(zb)) ? &M.buckets[zb] : &pool[j - 1].next;
+    XV_ASSUME(*cell == W(j));
+    *cell = MP_get(pool[j].next); g_retired[j]++; env_did_unlink = 1; env_unlinked = j;
+  }
+}
+static _Bool dead(unsigned i) { return in_mark[i] || (env_did_mark && env_marked == i); }
+void h_inc_int(void) {
+  build(); exp_init(); snapshot();
+  struct iterator it; build_iterator(&it); struct iterator pre = it; unsigned b = in_ib;
+  env_budget = 1; env_inserted = 0; env_did_mark = 0; env_did_unlink = 0; env_on = 1;
+  it_inc(&it);
+  env_on = 0;
+  XV_OBL("hmm.iter.inc.progress", it.info.cur != pre.info.cur);      /* the same element is not yielded again (its key was not re-inserted) */
+  /* the new position is behind the old one, and no node that stayed unmarked all the time lies between */
+  _Bool ok = 1; unsigned nb = NB, stop = 0;
+  if (it.info.cur != 0) {
+    ok = is_node(it.info.cur) && MP_mark(it.info.cur) == 0; unsigned ni = ok ? idx_of(it.info.cur) : 0;
+    if (ok && ni == IN) { ok = env_inserted; nb = env_zb; stop = env_zpos; }
+    else if (ok) { ok = ni < L; for (unsigned x = 0; x < NB; x++) if (ni >= lo(x) && ni < hi(x)) nb = x; ok = ok && nb < NB; stop = ni; }
+    ok = ok && it.bucket == nb && (nb > b || (nb == b && stop >= it_t));
+  }
+  XV_OBL("hmm.iter.inc.progress", ok);
+  if (ok) {
+    _Bool none_skipped = 1;
+    for (unsigned i = 0; i < L; i++) {
+      _Bool between = 0;
+      for (unsigned x = 0; x < NB; x++) if (i >= lo(x) && i < hi(x)) {
+        if (x == b && i >= it_t && (nb > b || i < stop)) between = 1;
+        if (x > b && x < nb) between = 1;
+        if (x > b && x == nb && i < stop) between = 1;
+      }
+      if (between && !dead(i)) none_skipped = 0;
+    }
+    XV_OBL("hmm.iter.inc.no_skip", none_skipped);
+  }
+  if (env_inserted && env_zb == b && in_icur == 0 && env_zpos == in_ic + 1) XV_CANARY("inc_int.insert_behind_cur");
+  if (env_did_mark && in_icur == 0 && env_marked == in_ic) XV_CANARY("inc_int.cur_marked_meanwhile");
+  if (env_did_unlink && in_icur == 0 && env_unlinked == in_ic + 1) XV_CANARY("inc_int.successor_unlinked");
+  if (env_budget == 1) XV_CANARY("inc_int.no_interference");
+}
+#endif
